@@ -1,4 +1,4 @@
-//! X03: replay CompatLoop schedules (spec/Gen_CompatLoop.tla) on a real compio Runtime driven by the real
+//! C03 compat leg (alias X03): replay CompatLoop schedules (spec/Gen_CompatLoop.tla) on a real compio Runtime driven by the real
 //! compio-compat loop over the real tokio / async-io adapters.
 //!
 //! usage: x03_replay <cases.jsonl> [--timer-ms N]
@@ -331,12 +331,13 @@ fn run_case(case: &Value, refs: &mut BTreeMap<String, Result<Outcome, String>>, 
     let prog = Prog::from_json(&case["prog"]);
     let complete = case["complete"].as_bool().unwrap_or(false);
     let dead = case["dead"].as_bool().unwrap_or(false);
-    let dev = if case["dev2"].as_bool().unwrap_or(false) {
-        "poll-blocking-skips-drain"
-    } else if case["dev1"].as_bool().unwrap_or(false) {
-        "blocking-wake-between-set-awake"
-    } else {
-        "none"
+    // which window of a repaired defect the schedule passes through (marked by the generator): names the class of
+    // schedule in the signature of a hang
+    let dev = match (case["dev1"].as_bool().unwrap_or(false), case["dev2"].as_bool().unwrap_or(false)) {
+        (true, false) => "blocking-wake-between-set-awake",
+        (false, true) => "poll-blocking-skips-drain",
+        (true, true) => "both-windows",
+        (false, false) => "none",
     };
     let key = format!("{driver}|{}", case["prog"]);
     let reference = refs.entry(key).or_insert_with(|| reference(&prog, &driver)).clone();
@@ -407,13 +408,9 @@ fn run_case(case: &Value, refs: &mut BTreeMap<String, Result<Outcome, String>>, 
             }
         }
         if hung {
-            let known = dead && r.diverged.is_none();
-            let mut sig = if known { sig_base("lost-completion") } else { sig_base("hang") };
-            sig["dev"] = json!(if known { dev } else { "none" });
-            if known {
-                // the signature of a known deviation does not depend on the host
-                sig.as_object_mut().unwrap().remove("host");
-            }
+            HANGS.fetch_add(1, Ordering::SeqCst);
+            let mut sig = sig_base("hang");
+            sig["dev"] = json!(dev);
             rep.problem(
                 "contract",
                 sig,
@@ -482,6 +479,10 @@ fn run_case(case: &Value, refs: &mut BTreeMap<String, Result<Outcome, String>>, 
     }
 }
 
+/// Runs that ended asleep in the host: each costs a watchdog; after a few the remaining cases are abandoned.
+static HANGS: std::sync::atomic::AtomicU64 = std::sync::atomic::AtomicU64::new(0);
+const MAX_HANGS: u64 = 6;
+
 fn main() {
     if std::env::var("VERIF_SHOW_PANICS").is_err() {
         hcore::out::silence_panics();
@@ -492,7 +493,14 @@ fn main() {
     let mut refs = BTreeMap::new();
     let mut inconclusive = 0u64;
     let mut retried = 0u64;
+    let mut abandoned = 0u64;
     for case in cases_from_arg() {
+        if HANGS.load(Ordering::SeqCst) >= MAX_HANGS {
+            // the loop under test keeps falling asleep: what was found is reported, the rest is not replayed
+            abandoned += 1;
+            rep.cases += 1;
+            continue;
+        }
         let r = std::panic::catch_unwind(std::panic::AssertUnwindSafe(|| run_case(&case, &mut refs, &mut rep, timer_ms)));
         match r {
             Err(e) => rep.problem("panic", json!({"site": "compat", "what": "harness"}), format!("panic in the harness: {}", panic_msg(e)), &case, 0),
@@ -510,6 +518,7 @@ fn main() {
     }
     rep.set("timing_inconclusive", json!(inconclusive));
     rep.set("timing_retries", json!(retried));
+    rep.set("abandoned_after_hangs", json!(abandoned));
     rep.finish();
     // threads of runs that hung for good may still be alive
     std::process::exit(0);
